@@ -8,7 +8,7 @@
     server wrote, and what the client returned.  Big payloads (signatures,
     64 KiB data, standard agent requests) are compared on the Go side. *)
 From Verif Require Import Lib.Base Lib.Bytes Lib.Wire Generated.YubiAgentGen
-  Model.Wire Model.Slots.
+  Model.Wire Model.Slots Model.AgentStd.
 Local Open Scope N_scope.
 
 Inductive case :=
@@ -33,14 +33,48 @@ Inductive case :=
    concrete local-mode server's ListSlots returned (None = an error) *)
 | CStatus (tool_out : option bytes) (result : option (list bytes))
 (* a slot operation on the concrete remote-mode server: 0 list, 1 read, 2 attest *)
-| CRemote (op : N) (refused : bool).
+| CRemote (op : N) (refused : bool)
+(* a standard agent request through the client: what the client was asked, the
+   request frame it wrote, what the served agent received (None = not called),
+   what the served agent answered, the reply frame the server wrote, what the
+   client's caller got (None = an error) *)
+| CStd (q : sreq) (req_wire : bytes) (seen : option sreq) (scripted : sresp)
+       (resp_wire : bytes) (client : option sresp).
 
 Definition obytes_eqb := option_eqb bytes_eqb.
 Definition lbytes_eqb := list_eqb bytes_eqb.
 Definition pair_eqb (a b : bytes * bytes) : bool :=
   bytes_eqb (fst a) (fst b) && bytes_eqb (snd a) (snd b).
 
+Definition ext_eqb (a b : bytes * bytes) : bool := pair_eqb a b.
+Definition added_eqb (a b : added) : bool :=
+  bytes_eqb (a_type a) (a_type b) && lbytes_eqb (a_fields a) (a_fields b) &&
+  bytes_eqb (a_comment a) (a_comment b) && N.eqb (a_lifetime a) (a_lifetime b) &&
+  Bool.eqb (a_confirm a) (a_confirm b) && list_eqb ext_eqb (a_exts a) (a_exts b).
+Definition sreq_eqb (a b : sreq) : bool :=
+  match a, b with
+  | QList, QList | QRemoveAll, QRemoveAll => true
+  | QSign b1 d1 f1, QSign b2 d2 f2 => bytes_eqb b1 b2 && bytes_eqb d1 d2 && N.eqb f1 f2
+  | QAdd x, QAdd y => added_eqb x y
+  | QRemove x, QRemove y | QLock x, QLock y | QUnlock x, QUnlock y => bytes_eqb x y
+  | _, _ => false
+  end.
+Definition sresp_eqb (a b : sresp) : bool :=
+  match a, b with
+  | PSuccess, PSuccess | PFailure, PFailure => true
+  | PIdents x, PIdents y => list_eqb pair_eqb x y
+  | PSig f1 b1 r1, PSig f2 b2 r2 => bytes_eqb f1 f2 && bytes_eqb b1 b2 && bytes_eqb r1 r2
+  | _, _ => false
+  end.
+
 (** * The property, on the implementation's observation *)
+(** "the served agent receives the same arguments and the caller receives the
+    same result, with keys, certificates and signatures byte-identical and
+    failures reported as errors" *)
+Definition oracle_std (q : sreq) (seen : option sreq) (scripted : sresp) (client : option sresp) : bool :=
+  option_eqb sreq_eqb seen (Some q) &&
+  option_eqb sresp_eqb client (match scripted with PFailure => None | p => Some p end).
+
 (** "the served agent receives the same arguments and the caller receives the
     same result ... failures reported as errors" *)
 Definition oracle_add (legacy : bool) (blob comment : bytes) (seen : option (bytes * bytes))
@@ -128,6 +162,14 @@ Definition agree (c : case) : bool :=
   | CRemote op refused =>
       Bool.eqb refused
         (refuses (match op with 0 => tx "ListSlots" | 1 => tx "ReadSlot" | _ => tx "AttestSlot" end))
+  | CStd q req_wire seen scripted resp_wire client =>
+      bytes_eqb (enc_req q) req_wire &&
+      match dec_req req_wire with
+      | Val s => option_eqb sreq_eqb s seen
+      | Panic => false
+      end &&
+      bytes_eqb (enc_resp scripted) resp_wire &&
+      option_eqb sresp_eqb (dec_std_reply q resp_wire) client
   end.
 
 Definition oracle (c : case) : bool :=
@@ -139,6 +181,7 @@ Definition oracle (c : case) : bool :=
   | CSlot _ slot _ seen _ err _ cert_same ce => oracle_slot slot seen err cert_same ce
   | CStatus tool_out result => oracle_status tool_out result
   | CRemote _ refused => refused
+  | CStd q _ seen scripted _ client => oracle_std q seen scripted client
   end.
 
 Definition check (c : case) : N :=
@@ -166,4 +209,8 @@ Definition classify (c : case) : N :=
       | Panic => 59
       end
   | CRemote _ _ => 60
+  | CStd q _ _ scripted _ _ =>
+      (match q with QList => 70 | QSign _ _ _ => 72 | QAdd _ => 74 | QRemove _ => 76 | QRemoveAll => 78
+                  | QLock _ => 80 | QUnlock _ => 82 end)
+      + (match scripted with PFailure => 1 | _ => 0 end)
   end.
